@@ -38,8 +38,5 @@ Theorem release_rounds_bounded :
   release_rounds retries valid = (k, ok) ->
   1 <= k /\ k <= Nat.max 1 retries /\
   (ok = true <-> exists j, j < Nat.max 1 retries /\ valid j = true).
-Proof.
-  intros retries valid k ok H.
-  destruct (release_loop_bounded_lemma retries valid k ok H) as [H1 [H2 [H3 _]]]. auto.
-Qed.
+Proof. exact release_rounds_bounded_lemma. Qed.
 Print Assumptions release_rounds_bounded.
